@@ -1,5 +1,7 @@
 """C05 — each edit has exactly its documented effect (refinement of the executable spec = the Lean model)."""
+from .. import dhg as MD
 from .. import hg as MH
+from .c02 import FULL as FIELDS_D, derive as derive_d
 from ..core import unlisted_violations  # noqa: E402
 from ..core import TRUSTED_COMMON, build_and_audit, finish
 from ..sm import run_sm
@@ -41,6 +43,31 @@ def pred_hg(snap, op, prev, exc):
     return fails
 
 
+def pred_dhg(snap, op, prev, exc):
+    """directed: an edit rejected for a missing / None ID raises the library's own error type"""
+    fails = []
+    name = op["op"]
+    if snap["out"].startswith("err") and snap["out"] != "err:lib":
+        pn, pe = prev["nodes"], prev["edges"]
+        missing = False
+        if name == "remove_node" and op.get("n") not in pn: missing = True
+        if name == "remove_edge" and op.get("e") not in pe: missing = True
+        if name == "remove_edges_from" and any(e not in pe for e in op.get("es", [])): missing = True
+        if name == "remove_node_from_edge" and (op.get("e") not in pe or op.get("n") not in pn): missing = True
+        if name == "add_node" and op.get("n") is None: missing = True
+        if missing:
+            fails.append(("wrong-error-type", f"DiHypergraph.{name} rejected a missing/invalid ID with {snap['out']} ({type(exc).__name__}: {exc})"))
+    return fails
+
+
+def build_and_audit_extra(ctx, mods):
+    from ..core import lean_build
+    ok, out = lean_build(mods)
+    if not ok:
+        ctx.broken.append("lake build " + " ".join(mods) + " failed")
+    return ok
+
+
 def run(ctx):
     ok = build_and_audit(ctx, "XgiModel.Props.C05", ["XgiModel.Drive.HG"])
     ctx.rule = ("histories of 1-30 public mutator calls over the full alphabet and argument shapes; full snapshot "
@@ -57,9 +84,18 @@ def run(ctx):
     for d in ctx.extra.get("disagreements", []):
         ctx.violation(d["ops"][-1]["op"], "differs-from-spec:" + ",".join(d["fields"]), {"class": "Hypergraph", "ops": d["ops"]},
                       detail=f"model {d['model']} impl {d['impl']}"[:600])
+    # directed class: the model of C02 (lean/XgiModel/C02/DHG.lean), full snapshot
+    n0 = len(ctx.extra.get("disagreements", []))
+    ok_d = build_and_audit_extra(ctx, ["XgiModel.C02.Drive"])
+    run_sm(ctx, MD, "DHG", FIELDS_D, pred_dhg, ctx.n(150, 6000), derive=derive_d, model_ok=ok_d,
+           corr_name="refinement DHG~DiHypergraph (full snapshot)")
+    for d in ctx.extra.get("disagreements", [])[n0:]:
+        ctx.violation("DiHypergraph." + d["ops"][-1]["op"], "differs-from-spec:" + ",".join(d["fields"]),
+                      {"class": "DiHypergraph", "ops": d["ops"]}, detail=f"model {d['model']} impl {d['impl']}"[:600])
     if not ok and not unlisted_violations(ctx):
         ctx.violation("model-tie", "unproven", {"broken": ctx.broken}, detail="; ".join(ctx.broken)[:500], kind="unproven", broken=ctx.broken)
-    ctx.assumptions = ["IDs restricted to int/str/tuple-of-atoms/None", "attribute dict key order is not compared (merge rule 'union' iterates a set of strings)"]
+    ctx.assumptions = ["IDs restricted to int/str/tuple-of-atoms/None", "attribute dict key order is not compared (merge rule 'union' iterates a set of strings)",
+                       "declarative effect theorems are stated on the undirected model; the directed class is covered by its operational model (C02) compared on the full snapshot; the simplicial class by the C03 model when present"]
     return finish(ctx, trusted_base=TRUSTED_COMMON)
 
 
